@@ -2301,6 +2301,16 @@ func (x *actorSystem) handleRemoteAsk(ctx context.Context, to *PID, message any,
 		putResponseChannel(responseCh)
 		return
 	case <-ctx.Done():
+		// The reply may already be waiting: when both are ready select picks
+		// at random, and a reply given in time must not be reported as lost.
+		select {
+		case late := <-responseCh:
+			timers.Put(timer)
+			receiveContext.responseClosed.Store(true)
+			putResponseChannel(responseCh)
+			return late, nil
+		default:
+		}
 		err = errors.Join(ctx.Err(), gerrors.ErrRequestTimeout)
 		to.handleReceivedErrorWithMessage(noSender, message, err)
 		timers.Put(timer)
@@ -2313,6 +2323,16 @@ func (x *actorSystem) handleRemoteAsk(ctx context.Context, to *PID, message any,
 		putResponseChannel(responseCh)
 		return nil, err
 	case <-timer.C:
+		// The reply may already be waiting: when both are ready select picks
+		// at random, and a reply given in time must not be reported as lost.
+		select {
+		case late := <-responseCh:
+			timers.Put(timer)
+			receiveContext.responseClosed.Store(true)
+			putResponseChannel(responseCh)
+			return late, nil
+		default:
+		}
 		err = gerrors.ErrRequestTimeout
 		to.handleReceivedErrorWithMessage(noSender, message, err)
 		timers.Put(timer)
